@@ -273,6 +273,8 @@ func c11UfsDescriptors(dotu bool) Scenario {
 			what string
 			do   func(rpc func(m *wire.Msg) *wire.Msg)
 		}
+		var cl *Cli // the connection of the history being played (for steps that need more than an rpc)
+		var ver string
 		open := func(fid uint32, mode uint8, names ...string) func(rpc func(m *wire.Msg) *wire.Msg) {
 			return func(rpc func(m *wire.Msg) *wire.Msg) {
 				rpc(twalk(0, 0, fid, names...))
@@ -315,6 +317,41 @@ func c11UfsDescriptors(dotu bool) Scenario {
 				rpc(&wire.Msg{Type: wire.Topen, Fid: 4, Mode: 1})
 			}}, {"", list(3, 2)}},
 			{{"a file opened through a symbolic link, truncating", open(1, 0x11, "ln")}},
+			// the host takes its time over an open (or create); a Tversion arrives meanwhile and the reply is dropped: the file is open all the same
+			{{"a file whose open was still under way in the host when a Tversion arrived", func(rpc func(m *wire.Msg) *wire.Msg) {
+				rpc(twalk(0, 0, 1, "f"))
+				gate := vs.NewSem(0)
+				first := true
+				vs.OpenFileHook = func(path string, flag int) {
+					if first && strings.HasSuffix(path, "/f") {
+						first = false
+						gate.Acquire()
+					}
+				}
+				cl.Send(cl.Dotu, &wire.Msg{Type: wire.Topen, Tag: 900, Fid: 1, Mode: 0})
+				vs.Idle()
+				cl.Version(8216, ver)
+				gate.Release()
+				vs.Idle()
+				vs.OpenFileHook = nil
+			}}},
+			{{"a file whose create was still under way in the host when a Tversion arrived", func(rpc func(m *wire.Msg) *wire.Msg) {
+				rpc(twalk(0, 0, 1, "d"))
+				gate := vs.NewSem(0)
+				first := true
+				vs.OpenFileHook = func(path string, flag int) {
+					if first && strings.HasSuffix(path, "/late") {
+						first = false
+						gate.Acquire()
+					}
+				}
+				cl.Send(cl.Dotu, &wire.Msg{Type: wire.Tcreate, Tag: 900, Fid: 1, Name: "late", Perm: 0644, Mode: 1})
+				vs.Idle()
+				cl.Version(8216, ver)
+				gate.Release()
+				vs.Idle()
+				vs.OpenFileHook = nil
+			}}},
 		}
 		seen := map[string]bool{}
 		for hi, h := range histories {
@@ -328,8 +365,8 @@ func c11UfsDescriptors(dotu bool) Scenario {
 			var bad string
 			body := func() {
 				h9 := newUfsH(root, 8216, dotu)
-				cl := h9.Connect()
-				ver := "9P2000"
+				cl = h9.Connect()
+				ver = "9P2000"
 				if dotu {
 					ver = "9P2000.u"
 				}
@@ -355,6 +392,7 @@ func c11UfsDescriptors(dotu bool) Scenario {
 				vs.Idle()
 			}
 			x := vs.Run(nil, body, vs.Options{Horizon: 100000000})
+			vs.OpenFileHook = nil
 			res.Evals++
 			res.Nontrivial++
 			res.Traces++
